@@ -55,7 +55,7 @@ func init() {
 		pkgPath:   "github.com/yandex/pandora/core/coreutil",
 		module:    "Waiter",
 		namespace: "Pandora.Gen.Waiter",
-		imports:   []string{"Pandora.Model.C04"},
+		imports:   []string{"Pandora.Model.C04", "Pandora.Model.C04Ext"},
 		extra:     waiterExtra,
 	}
 }
@@ -71,6 +71,16 @@ type waiterTr struct {
 	inWait, nextSeen bool
 	// instance.Run: locals that hold an answer of <waiter>.IsSlowDown(ctx) (`slow := waiter.IsSlowDown(ctx)`)
 	slowLocals map[string]bool
+	// Wait is translated a second time with the state of w.timer threaded through (`WaitT`, round 3)
+	withTimer bool
+}
+
+// ret renders the value a `return` of Wait yields
+func (x *waiterTr) ret(ok string) string {
+	if x.withTimer {
+		return "(" + x.recv + ", tm, " + ok + ")"
+	}
+	return "(" + x.recv + ", " + ok + ")"
 }
 
 func (x *waiterTr) fail(n ast.Node, format string, a ...any) string {
@@ -117,6 +127,10 @@ func (x *waiterTr) isCtxDone(e ast.Expr) bool {
 
 func (x *waiterTr) expr(e ast.Expr) string {
 	info := x.pkg.TypesInfo
+	if x.inWait && x.src(e) == "ctx.Err() != nil" {
+		// the non-blocking check of the context, written without a select
+		return "e.ctxDone"
+	}
 	switch v := e.(type) {
 	case *ast.ParenExpr:
 		return x.expr(v.X)
@@ -220,7 +234,7 @@ func (x *waiterTr) block(stmts []ast.Stmt, ind string) string {
 	switch v := s.(type) {
 	case *ast.ReturnStmt:
 		if len(v.Results) == 1 {
-			return ind + "(" + x.recv + ", " + x.expr(v.Results[0]) + ")"
+			return ind + x.ret(x.expr(v.Results[0]))
 		}
 	case *ast.SelectStmt:
 		var conds []string
@@ -253,7 +267,12 @@ func (x *waiterTr) block(stmts []ast.Stmt, ind string) string {
 			// non-blocking check of the context
 			return ind + "if e.ctxDone then\n" + x.block(bodies[0], ind+"  ") + "\n" + ind + "else\n" + x.block(append(append([]ast.Stmt{}, def...), rest...), ind+"  ")
 		case !hasDef && len(conds) == 2 && conds[0] == "e.timerWins" && conds[1] == "e.ctxDone" && len(rest) == 0:
-			return ind + "if e.timerWins then\n" + x.block(bodies[0], ind+"  ") + "\n" + ind + "else\n" + x.block(bodies[1], ind+"  ")
+			recv := ""
+			if x.withTimer {
+				// `<-w.timer.C` was received
+				recv = ind + "  let tm : TimerSt := TimerSt.recv tm\n"
+			}
+			return ind + "if e.timerWins then\n" + recv + x.block(bodies[0], ind+"  ") + "\n" + ind + "else\n" + x.block(bodies[1], ind+"  ")
 		}
 		return ind + x.fail(s, "select shape")
 	case *ast.AssignStmt:
@@ -285,6 +304,9 @@ func (x *waiterTr) block(stmts []ast.Stmt, ind string) string {
 		}
 		if _, ok := x.timerArm(v); ok {
 			x.armStmt = v
+			if x.withTimer {
+				return ind + "let tm : TimerSt := if tm.created then TimerSt.reset tm else TimerSt.newTimer\n" + x.block(rest, ind)
+			}
 			return ind + "-- " + x.src(v.Cond) + ": NewTimer / Reset: the timer is armed for `timerArmedFor waitFor`\n" + x.block(rest, ind)
 		}
 		if v.Else == nil && len(v.Body.List) > 0 {
@@ -324,7 +346,15 @@ func waiterExtra(t *tr) string {
 		x.inWait = true
 		b.WriteString("/-- regenerated from `core/coreutil/waiter.go` method `(*Waiter).Wait` -/\n")
 		b.WriteString("def Wait (" + x.recv + " : Waiter) (e : Env) : Waiter × Bool :=\n" + x.block(fd.Body.List, "  ") + "\n\n")
+		// the same statements once more, with the state of w.timer (created? / a tick not yet received?) threaded through
+		x.withTimer, x.nextSeen = true, false
+		nerr := len(t.errs)
+		b.WriteString("/-- regenerated from `(*Waiter).Wait` with the timer: `if w.timer == nil {NewTimer} else {Reset}` arms it, `case <-w.timer.C` receives its tick -/\n")
+		b.WriteString("def WaitT (" + x.recv + " : Waiter) (tm : TimerSt) (e : Env) : Waiter × TimerSt × Bool :=\n" + x.block(fd.Body.List, "  ") + "\n\n")
+		t.errs = t.errs[:nerr] // the same complaints as for Wait
+		x.withTimer = false
 		x.inWait = false
+		b.WriteString(x.timerOwnership(fd))
 		if x.armStmt != nil {
 			// the duration both NewTimer and Reset are called with, as a function of the local waitFor
 			call := x.armStmt.Body.List[0].(*ast.AssignStmt).Rhs[0].(*ast.CallExpr)
@@ -361,6 +391,18 @@ func waiterExtra(t *tr) string {
 						b.WriteString("/-- regenerated from `core/coreutil/waiter.go` method `(*Waiter)." + m.name + "` -/\n")
 						b.WriteString("def " + m.name + " " + strings.ReplaceAll(m.sig, "RECV", x.recv) + " :=\n  if ctxDone then " + x.expr(r0.Results[0]) + " else " + m.wrap + x.expr(r1.Results[0]) + "\n\n")
 					}
+				}
+			}
+		}
+		if !ok && len(fd.Body.List) == 2 {
+			// if ctx.Err() != nil { return A }; return B
+			ifs, isIf := fd.Body.List[0].(*ast.IfStmt)
+			r1, isR1 := fd.Body.List[1].(*ast.ReturnStmt)
+			if isIf && isR1 && ifs.Init == nil && ifs.Else == nil && x.src(ifs.Cond) == "ctx.Err() != nil" && len(ifs.Body.List) == 1 && len(r1.Results) == 1 {
+				if r0, isR0 := ifs.Body.List[0].(*ast.ReturnStmt); isR0 && len(r0.Results) == 1 {
+					ok = true
+					b.WriteString("/-- regenerated from `core/coreutil/waiter.go` method `(*Waiter)." + m.name + "` -/\n")
+					b.WriteString("def " + m.name + " " + strings.ReplaceAll(m.sig, "RECV", x.recv) + " :=\n  if ctxDone then " + x.expr(r0.Results[0]) + " else " + m.wrap + x.expr(r1.Results[0]) + "\n\n")
 				}
 			}
 		}
@@ -451,6 +493,8 @@ func waiterExtra(t *tr) string {
 		t.errs = append(t.errs, "func DiscardedShootSample not found")
 	}
 
+	b.WriteString(waiterPhoutFacts(t, ns, nx))
+
 	// --- engine: the fire/discard decision of (*instance).Run
 	en := load("github.com/yandex/pandora/core/engine")
 	ex := &waiterTr{t: t, pkg: en}
@@ -483,8 +527,8 @@ func waiterExtra(t *tr) string {
 					fireCalls = append(fireCalls, strconv.Quote(ex.src(es)))
 				}
 			}
-			for _, s := range eb.List {
-				elseStmts = append(elseStmts, strconv.Quote(ex.src(s)))
+			for _, s := range ex.normBranch(eb.List) {
+				elseStmts = append(elseStmts, strconv.Quote(s))
 			}
 			b.WriteString("/-- calls made in the fire branch (expression statements, in order) -/\n")
 			b.WriteString("def fireBranch : List String := [" + strings.Join(fireCalls, ", ") + "]\n\n")
@@ -585,6 +629,13 @@ func (x *waiterTr) branchOutcome(b *ast.BlockStmt) string {
 		if x.ignorable(s) {
 			continue
 		}
+		if as, ok := s.(*ast.AssignStmt); ok && x.isSampleLocal(as) != "" {
+			continue // inlined into the Report that follows (normBranch)
+		}
+		if sl := x.reportOfLocal(b.List, s); sl != "" {
+			eff = append(eff, "(Outcome.discard DiscardedShootSample)")
+			continue
+		}
 		switch x.src(s) {
 		case "i.gun.Shoot(ammo)":
 			eff = append(eff, "Outcome.shoot")
@@ -598,6 +649,119 @@ func (x *waiterTr) branchOutcome(b *ast.BlockStmt) string {
 		return x.fail(b, "a branch of the fire/discard if has %d effects (want exactly one of Shoot / Report(DiscardedShootSample()))", len(eff))
 	}
 	return eff[0]
+}
+
+// isSampleLocal: `x := netsample.DiscardedShootSample()` -> "x"
+func (x *waiterTr) isSampleLocal(as *ast.AssignStmt) string {
+	if as.Tok == token.DEFINE && len(as.Lhs) == 1 && len(as.Rhs) == 1 && x.src(as.Rhs[0]) == "netsample.DiscardedShootSample()" {
+		if id, ok := as.Lhs[0].(*ast.Ident); ok {
+			return id.Name
+		}
+	}
+	return ""
+}
+
+// reportOfLocal: s is `i.aggregator.Report(x)` and the statement just before it in stmts is `x := netsample.DiscardedShootSample()`
+func (x *waiterTr) reportOfLocal(stmts []ast.Stmt, s ast.Stmt) string {
+	for k := 1; k < len(stmts); k++ {
+		if stmts[k] != s {
+			continue
+		}
+		if as, ok := stmts[k-1].(*ast.AssignStmt); ok {
+			if l := x.isSampleLocal(as); l != "" && x.src(s) == "i.aggregator.Report("+l+")" {
+				return l
+			}
+		}
+	}
+	return ""
+}
+
+// normBranch renders the statements of a branch; `x := netsample.DiscardedShootSample(); i.aggregator.Report(x)` is rendered as
+// the one statement `i.aggregator.Report(netsample.DiscardedShootSample())` (the local is used for nothing else: Go rejects an
+// unused variable and a second use shows up as a further statement)
+func (x *waiterTr) normBranch(stmts []ast.Stmt) []string {
+	var out []string
+	for k := 0; k < len(stmts); k++ {
+		if as, ok := stmts[k].(*ast.AssignStmt); ok && k+1 < len(stmts) {
+			if l := x.isSampleLocal(as); l != "" && x.src(stmts[k+1]) == "i.aggregator.Report("+l+")" {
+				out = append(out, "i.aggregator.Report(netsample.DiscardedShootSample())")
+				k++
+				continue
+			}
+		}
+		out = append(out, x.src(stmts[k]))
+	}
+	return out
+}
+
+// timerOwnership: who touches w.timer. The theorems about the timer (`C04_timer_channel_empty_at_arm`) are about a timer that
+// belongs to ONE waiter, is created by the arming statement of Wait and received from only in Wait's final select.
+func (x *waiterTr) timerOwnership(wait *ast.FuncDecl) string {
+	var b strings.Builder
+	// NewWaiter: &Waiter{sched: sched}
+	fields := []string{"<NewWaiter not recognised>"}
+	if fd := findFunc(x.pkg, "NewWaiter"); fd != nil && len(fd.Body.List) == 1 {
+		if ret, ok := fd.Body.List[0].(*ast.ReturnStmt); ok && len(ret.Results) == 1 {
+			if u, ok := ret.Results[0].(*ast.UnaryExpr); ok && u.Op == token.AND {
+				if cl, ok := u.X.(*ast.CompositeLit); ok && x.src(cl.Type) == "Waiter" {
+					fields = nil
+					for _, el := range cl.Elts {
+						if kv, ok := el.(*ast.KeyValueExpr); ok {
+							fields = append(fields, x.src(kv.Key))
+						} else {
+							fields = append(fields, "<positional>")
+						}
+					}
+				}
+			}
+		}
+	}
+	q := make([]string, len(fields))
+	for i, f := range fields {
+		q[i] = strconv.Quote(f)
+	}
+	b.WriteString("/-- regenerated from `coreutil.NewWaiter`: the fields of the `&Waiter{…}` it returns (everything else is zero: no timer, zero `lastNow`, zero overdue) -/\n")
+	b.WriteString("def newWaiterFields : List String := [" + strings.Join(q, ", ") + "]\n\n")
+	// uses of a field named `timer` in the package (tests excluded) outside the arming statement and the final select of Wait
+	isTimerSel := func(n ast.Node) bool {
+		sel, ok := n.(*ast.SelectorExpr)
+		return ok && sel.Sel.Name == "timer"
+	}
+	total, inside := 0, 0
+	for _, f := range x.pkg.Syntax {
+		if strings.HasSuffix(x.pkg.Fset.Position(f.Pos()).Filename, "_test.go") {
+			continue
+		}
+		ast.Inspect(f, func(n ast.Node) bool {
+			if isTimerSel(n) {
+				total++
+			}
+			return true
+		})
+	}
+	count := func(n ast.Node) {
+		ast.Inspect(n, func(m ast.Node) bool {
+			if isTimerSel(m) {
+				inside++
+			}
+			return true
+		})
+	}
+	if x.armStmt != nil {
+		count(x.armStmt)
+	}
+	for _, s := range wait.Body.List {
+		if sel, ok := s.(*ast.SelectStmt); ok {
+			for _, c := range sel.Body.List {
+				if cc := c.(*ast.CommClause); cc.Comm != nil {
+					count(cc.Comm)
+				}
+			}
+		}
+	}
+	b.WriteString("/-- regenerated from `core/coreutil`: uses of a field `timer` outside the arming statement and the `case <-w.timer.C` of `Wait` -/\n")
+	b.WriteString(fmt.Sprintf("def timerOtherUses : Nat := %d\n\n", total-inside))
+	return b.String()
 }
 
 // closure translates the body of the `func() error {…}` of one pass into a term of type `Waiter × Outcome`.
@@ -1153,4 +1317,78 @@ func waiterCliInnerGuards(rc *ast.FuncDecl, src func(ast.Node) string) []string 
 	}
 	walk(rc.Body, nil, false)
 	return out
+}
+
+// waiterPhoutFacts: where the phout aggregator prints the net code of a sample (round 3): the indices of the `key…` constants,
+// the key SetUserNet stores under, the body of (*Sample).set and the order in which appendPhout prints the parts of a line.
+func waiterPhoutFacts(t *tr, ns *packages.Package, nx *waiterTr) string {
+	var b strings.Builder
+	for _, c := range []struct{ goName, leanName string }{{"keyErrno", "phKeyErrno"}, {"keyProtoCode", "phKeyProtoCode"}, {"fieldsNum", "phFieldsNum"}} {
+		obj, ok := ns.Types.Scope().Lookup(c.goName).(*types.Const)
+		if !ok {
+			t.errs = append(t.errs, "netsample: const "+c.goName+" not found")
+			continue
+		}
+		b.WriteString("/-- regenerated from `core/aggregator/netsample/sample.go` const `" + c.goName + "` -/\n")
+		b.WriteString("def " + c.leanName + " : Nat := " + obj.Val().ExactString() + "\n\n")
+	}
+	key := "<not recognised>"
+	if su := waiterFindMethod(ns, "Sample", "SetUserNet"); su != nil && len(su.Body.List) == 1 {
+		if es, ok := su.Body.List[0].(*ast.ExprStmt); ok {
+			if call, ok := es.X.(*ast.CallExpr); ok && nx.src(call.Fun) == "s.set" && len(call.Args) == 2 && nx.src(call.Args[1]) == "code" {
+				key = nx.src(call.Args[0])
+			}
+		}
+	}
+	b.WriteString("/-- `(*Sample).SetUserNet(code)` stores `code` under this key -/\n")
+	b.WriteString("def phSetUserNetKey : String := " + strconv.Quote(key) + "\n\n")
+	body := "<not recognised>"
+	if st := waiterFindMethod(ns, "Sample", "set"); st != nil && st.Type.Params != nil && len(st.Type.Params.List) == 1 && len(st.Type.Params.List[0].Names) == 2 &&
+		st.Type.Params.List[0].Names[0].Name == "k" && st.Type.Params.List[0].Names[1].Name == "v" && nx.src(st.Type.Params.List[0].Type) == "int" {
+		var parts []string
+		for _, s := range st.Body.List {
+			parts = append(parts, nx.src(s))
+		}
+		body = strings.Join(parts, "; ")
+	}
+	b.WriteString("/-- the body of `(*Sample).set(k, v int)` -/\n")
+	b.WriteString("def phSetBody : String := " + strconv.Quote(body) + "\n\n")
+	// appendPhout: time stamp, TAB, tags, [#id], then TAB + field for every field in index order
+	var layout []string
+	if fd := findFunc(ns, "appendPhout"); fd != nil {
+		stmts := fd.Body.List
+		for k := 0; k < len(stmts); k++ {
+			src := nx.src(stmts[k])
+			switch {
+			case src == "dst = appendTimestamp(s.timeStamp, dst)":
+				layout = append(layout, "timestamp")
+			case src == "dst = append(dst, phoutDelimiter)":
+				layout = append(layout, "TAB")
+			case src == "dst = append(dst, s.tags...)":
+				layout = append(layout, "tags")
+			case src == "if id { dst = append(dst, '#') dst = strconv.AppendInt(dst, int64(s.ID()), 10) }":
+				layout = append(layout, "#id")
+			case src == "for _, v := range s.fields { dst = append(dst, phoutDelimiter) dst = strconv.AppendInt(dst, int64(v), 10) }":
+				layout = append(layout, "TAB+field*")
+			case src == "return dst" && k == len(stmts)-1:
+			default:
+				layout = append(layout, "<other>:"+src)
+			}
+		}
+		if d, ok := ns.Types.Scope().Lookup("phoutDelimiter").(*types.Const); !ok || d.Val().ExactString() != "9" {
+			layout = append(layout, "<delimiter is not TAB>")
+		}
+		if idm := waiterFindMethod(ns, "Sample", "ID"); idm == nil || len(idm.Body.List) != 1 || nx.src(idm.Body.List[0]) != "return s.id" {
+			layout = append(layout, "<ID() is not s.id>")
+		}
+	} else {
+		t.errs = append(t.errs, "netsample: func appendPhout not found")
+	}
+	q := make([]string, len(layout))
+	for i, l := range layout {
+		q[i] = strconv.Quote(l)
+	}
+	b.WriteString("/-- the parts `appendPhout` prints, in order (`TAB` = the delimiter, `TAB+field*` = every field of `s.fields`, each after a delimiter) -/\n")
+	b.WriteString("def phoutLayout : List String := [" + strings.Join(q, ", ") + "]\n\n")
+	return b.String()
 }
